@@ -12,6 +12,16 @@ fn known_ids(prop: &str) -> Vec<String> {
     load_known(&root()).into_iter().filter(|k| k.property == prop && k.status == "known").map(|k| k.id).collect()
 }
 
+/// libfuzzer-sys installs a panic hook that aborts the process on *every* panic, also one the oracle catches and judges
+/// (`lib_call`): a library panic that belongs to a listed known finding (the overflowing output total of C01) would end the
+/// campaign at its first occurrence, for ever. The targets therefore put the harness's own hook back on their first call;
+/// a failure the oracle does not attribute to a known finding aborts explicitly, and a panic nobody catches still aborts
+/// in libfuzzer-sys's wrapper around the target.
+fn init() {
+    static ONCE: std::sync::Once = std::sync::Once::new();
+    ONCE.call_once(crate::engine::install_panic_hook);
+}
+
 fn report<P: Property>(case: &P::Case, r: Result<Outcome, Failure>) {
     if let Err(f) = r {
         if let Some(id) = P::known(case, &f) {
@@ -19,33 +29,39 @@ fn report<P: Property>(case: &P::Case, r: Result<Outcome, Failure>) {
                 return;
             }
         }
-        panic!("VIOLATION property={} check={} library={} oracle={}", P::ID, f.check, f.library, f.oracle);
+        eprintln!("VIOLATION property={} check={} library={} oracle={}", P::ID, f.check, f.library, f.oracle);
+        std::process::abort();
     }
 }
 
 pub fn tx(data: &[u8]) {
+    init();
     let case = c01::Case::Raw { bytes: data.to_vec() };
     report::<c01::C01>(&case, c01::C01::check(&case));
 }
 
 pub fn script(data: &[u8]) {
+    init();
     let case = c02::Case::Raw { bytes: data.to_vec() };
     report::<c02::C02>(&case, c02::C02::check(&case));
 }
 
 pub fn asm(data: &[u8]) {
+    init();
     let text = String::from_utf8_lossy(data).to_string();
     let case = c17::Case::Text { text };
     report::<c17::C17>(&case, c17::C17::check(&case));
 }
 
 pub fn decoders(data: &[u8]) {
+    init();
     let Some((first, rest)) = data.split_first() else { return };
     let case = c09::Case { dec: *first % (c09::decoders().len() as u8), kind: c09::Kind::Raw(rest.to_vec()) };
     report::<c09::C09>(&case, c09::C09::check(&case));
 }
 
 pub fn interp(data: &[u8]) {
+    init();
     let case = c16::Case::Raw { bytes: data.to_vec() };
     report::<c16::C16>(&case, c16::C16::check(&case));
     // semantic lock-step as well, when the bytes parse
@@ -58,6 +74,7 @@ pub fn interp(data: &[u8]) {
 
 /// interpreter built from a transaction input: byte 0 is the length of the unlocking script, the rest after it is the locking script
 pub fn interptx(data: &[u8]) {
+    init();
     let Some((first, rest)) = data.split_first() else { return };
     let ul = (*first as usize).min(rest.len());
     let case = c16::Case::RawTx { unlock: rest[..ul].to_vec(), lock: rest[ul..].to_vec() };
